@@ -193,6 +193,7 @@ def _interpret_node(t: 'val', variables: 'set', model: 'Model') -> 'tuple':
     ensures(is_list(result[2]) and len(result[2]) >= 1 and pair_with_list(result[2][-1]), label='nonempty')
     ensures(forall_idx(result[2], lambda j, e: pair_with_list(e)), label='shape')
     ensures(is_list(result[1]), label='triples-list')
+    ensures(forall_idx(result[1], lambda j, tr: is_tuple(tr) and len(tr) == 3 and is_str(tr[1])), label='triples-wf')
     invariant(0, lambda: epidata == read_edges(var, edges[:_i], variables, model))
     invariant(0, lambda: triples == edges_triples(var, edges[:_i], variables, model))
     invariant(0, lambda: has_concept == concept_written(edges[:_i]))
@@ -200,6 +201,7 @@ def _interpret_node(t: 'val', variables: 'set', model: 'Model') -> 'tuple':
     invariant(0, lambda: len(epidata) == 0 or pair_with_list(epidata[-1]))
     invariant(0, lambda: implies(has_concept, len(epidata) >= 1))
     invariant(0, lambda: forall_idx(epidata, lambda j, e: pair_with_list(e)))
+    invariant(0, lambda: is_list(triples) and forall_idx(triples, lambda j, tr: is_tuple(tr) and len(tr) == 3 and is_str(tr[1])))
     # proof hints for the nested-node step: one unfolding of read_edges, and with_pop spelled out
     use('loop0.step.0', lambda: read_edges_step(var, edges, _i - 1, variables, model))
     use('loop0.step.0', lambda: with_pop_is(read_node(target, variables, model)))
